@@ -166,7 +166,7 @@ def _native_checks(mod, tier, seed, scratch, open_k):
             continue
         try:
             exe = N.build_driver(nc["driver"], scratch, link_ompl=nc.get("link_ompl", False),
-                                 unit_cpps=nc.get("unit_cpps", []))
+                                 unit_cpps=nc.get("unit_cpps", []), extra=nc.get("extra", ()))
             args = nc["args"](tier, seed) if callable(nc.get("args")) else nc.get("args", [])
             r = C.run_cmd([exe] + [str(a) for a in args], nc.get("timeout", 600), env=N.run_env())
             out["runs"].append(dict(name=nc["name"], rc=r["rc"], secs=round(r["secs"], 2), tail=r["out"][-600:]))
